@@ -158,6 +158,11 @@ var _ raster.Rasterizer = (*Raster)(nil)
 
 func (r *Raster) ResetLog() { r.Calls = r.Calls[:0]; r.Queries = 0 }
 
+// Fresh puts the recorder back into its initial state (pen, size, log), keeping the log's
+// capacity and the rasteriser it forwards to: what a case observes must not depend on the
+// case that ran before it.
+func (r *Raster) Fresh() { *r = Raster{Calls: r.Calls[:0], Next: r.Next} }
+
 func (r *Raster) add(c RCall) {
 	c.PenX, c.PenY, c.FirstX, c.FirstY = r.penX, r.penY, r.firstX, r.firstY
 	r.Calls = append(r.Calls, c)
